@@ -172,9 +172,10 @@ class Spec(object):
     def sk(self, level=0):
         return self.gen.skolem(level)
 
-    def spec_array(self, name, ty=REAL):
-        """a specification-only array (never assigned by code): returns its accessor"""
-        full = 'SPEC_%s%s' % (name, self.tag)
+    def spec_array(self, name, ty=REAL, shared=False):
+        """a specification-only array (never assigned by code): returns its accessor.  shared: one array for the function
+        and all its callees (a definitional extension over state none of them assigns -- checked for the function)"""
+        full = 'SPEC_%s%s' % (name, '' if shared else self.tag)
         self.gen.globals_a[full] = ty
         return (lambda k: E.idx(full, k, ty)), full
 
